@@ -2784,12 +2784,41 @@ impl Compiler {
         // Check if namespace already exists (for merging)
         // Try to get existing namespace, use it if found, otherwise create new
         let existing_reg = self.builder.alloc_register()?;
-
-        // Try to get the existing namespace variable (returns undefined if not found)
-        self.builder.emit(Op::TryGetVar {
-            dst: existing_reg,
-            name: name_idx,
-        });
+        let depth = self.scope_depth;
+        let parent = self.pending_namespace_parent.take();
+        let nested = self.namespace_depth > 0;
+        if let Some(parent_reg) = parent {
+            // `export namespace M` inside namespace N merges with N.M, whatever else is
+            // called M further out
+            self.builder.emit(Op::GetPropertyConst {
+                dst: existing_reg,
+                obj: parent_reg,
+                key: name_idx,
+            });
+        } else if nested {
+            // A local namespace merges only with one declared earlier in the same body
+            let declared = self
+                .declared_namespaces
+                .iter()
+                .any(|(n, d)| *d == depth && n.as_str() == decl.id.name.as_str());
+            if declared {
+                self.builder.emit(Op::GetVar {
+                    dst: existing_reg,
+                    name: name_idx,
+                });
+            } else {
+                self.builder.emit(Op::LoadUndefined { dst: existing_reg });
+            }
+        } else {
+            // Try to get the existing namespace variable (returns undefined if not found);
+            // it may be a function, class or enum the namespace merges with
+            self.builder.emit(Op::TryGetVar {
+                dst: existing_reg,
+                name: name_idx,
+            });
+        }
+        self.declared_namespaces
+            .push((decl.id.name.cheap_clone(), depth));
 
         // Check if existing is undefined - use JumpIfNullish since undefined is nullish
         // If undefined/null, jump to create new object, else use existing
@@ -2805,13 +2834,24 @@ impl Compiler {
         // Create new namespace object
         self.builder.patch_jump(jump_to_create);
         self.builder.emit(Op::CreateObject { dst: ns_obj });
-        self.builder.emit(Op::DeclareVar {
-            name: name_idx,
-            init: ns_obj,
-            mutable: true,
-        });
+        if !nested {
+            self.builder.emit(Op::DeclareVar {
+                name: name_idx,
+                init: ns_obj,
+                mutable: true,
+            });
+        }
 
         self.builder.patch_jump(jump_to_end);
+
+        // Inside a namespace body the name is always a local of that body
+        if nested {
+            self.builder.emit(Op::DeclareVar {
+                name: name_idx,
+                init: ns_obj,
+                mutable: true,
+            });
+        }
 
         // Free temporary registers
         self.builder.free_register(existing_reg);
@@ -2819,9 +2859,24 @@ impl Compiler {
         // Push a new scope for the namespace body
         self.emit_push_scope();
 
+        // Exports of earlier blocks of a merged namespace are in scope as N.<name>
+        self.builder.emit(Op::BindNamespaceExports { ns: ns_obj });
+
+        // A namespace body is a function scope: its `var`s are its own
+        let outer_hoisted = std::mem::take(&mut self.hoisted_vars);
+        self.emit_hoisted_declarations(&decl.body)?;
+        self.namespace_depth += 1;
+
         // Compile the namespace body statements
         for stmt in decl.body.iter() {
+            if let Statement::Export(export) = stmt
+                && let Some(ref inner) = export.declaration
+                && matches!(inner.as_ref(), Statement::NamespaceDeclaration(_))
+            {
+                self.pending_namespace_parent = Some(ns_obj);
+            }
             self.compile_statement_impl(stmt)?;
+            self.pending_namespace_parent = None;
 
             // If the statement exports something, add it to the namespace object
             // For now, we handle exported declarations by adding them to the namespace
@@ -2831,6 +2886,9 @@ impl Compiler {
                 self.add_export_to_namespace(ns_obj, decl)?;
             }
         }
+
+        self.namespace_depth -= 1;
+        self.hoisted_vars = outer_hoisted;
 
         // Pop the namespace scope
         self.emit_pop_scope();
@@ -2847,20 +2905,32 @@ impl Compiler {
     ) -> Result<(), JsError> {
         match decl {
             Statement::VariableDeclaration(var_decl) => {
+                // An exported variable is a property of the namespace object, not a local:
+                // code inside the namespace reads and writes N.x, so writes from either side
+                // are seen by the other and later blocks of a merged namespace see it
                 for declarator in var_decl.declarations.iter() {
-                    if let crate::ast::Pattern::Identifier(id) = &declarator.id {
-                        let value_reg = self.builder.alloc_register()?;
-                        let name_idx = self.builder.add_string(id.name.cheap_clone())?;
-                        self.builder.emit(Op::GetVar {
-                            dst: value_reg,
+                    let mut names = Vec::new();
+                    super::hoist::collect_pattern_var_names(&declarator.id, &mut names);
+                    for name in names {
+                        let name_idx = self.builder.add_string(name)?;
+                        // `export let x;` defines nothing until it is assigned
+                        if declarator.init.is_some() {
+                            let value_reg = self.builder.alloc_register()?;
+                            self.builder.emit(Op::GetVar {
+                                dst: value_reg,
+                                name: name_idx,
+                            });
+                            self.builder.emit(Op::SetPropertyConst {
+                                obj: ns_obj,
+                                key: name_idx,
+                                value: value_reg,
+                            });
+                            self.builder.free_register(value_reg);
+                        }
+                        self.builder.emit(Op::DeclareNamespaceExport {
+                            ns: ns_obj,
                             name: name_idx,
                         });
-                        self.builder.emit(Op::SetPropertyConst {
-                            obj: ns_obj,
-                            key: name_idx,
-                            value: value_reg,
-                        });
-                        self.builder.free_register(value_reg);
                     }
                 }
             }
